@@ -234,7 +234,7 @@ TPbBlock == /\ Tr[l].e = "PbBlock"
 \* events of the other families (system-level traces): stuttering steps for this specification
 Own == {"Reset", "Garbage", "Hash", "HInit", "HReinit", "HUpdate", "HFinal", "HFree", "Hmac", "HmInit", "HmReinit", "HmUpdate",
         "HmFinal", "HmFree", "Hkdf", "HkdfHead", "PbHead", "HkdfBlock", "HkExtract", "HkExpand", "HkExpandCtl", "HkFree",
-        "Pbkdf2", "PbBlock", "PbLink", "PbXor"}
+        "Pbkdf2", "PbBlock", "PbLink", "PbXor", "HashHuge"}
 TForeign == Tr[l].e \notin Own \cup {"Fault", "San", "Hang", "Garbled"} /\ UNCHANGED <<hs, ms, ks, D, kc>>
 
 (***************************************************************************)
@@ -260,6 +260,20 @@ TPbXor == /\ Tr[l].e = "PbXor"
              IN  Judge(e.cur = SubSeq(t, 1, Len(e.cur)) /\ Len(e.us) = (IF e.count = 0 THEN 1 ELSE e.count), l, e, t)
           /\ UNCHANGED <<hs, ms, ks, D, kc>>
 
+(***************************************************************************)
+(* Messages of 4 GiB and more cannot be interpreted, but C11's statement   *)
+(* can still be judged on them: the digest of a message (here "n zero      *)
+(* bytes", described, not logged) must not depend on how it was supplied.  *)
+(* The first HashHuge event of a description fixes the digest, every later *)
+(* one with the same description must agree.  D doubles as the table.      *)
+(***************************************************************************)
+THashHuge == /\ Tr[l].e = "HashHuge"
+             /\ LET e == Tr[l] IN
+                /\ Judge(~Learned(e.desc) \/ DigestOfMsg(e.desc) = e.out, l, e,
+                         IF Learned(e.desc) THEN DigestOfMsg(e.desc) ELSE "-")
+                /\ D' = IF Learned(e.desc) THEN D ELSE D \cup {<<e.desc, e.out>>}
+             /\ UNCHANGED <<hs, ms, ks, kc>>
+
 Init == /\ l = 1 /\ InitRegs
         /\ hs = [o \in Objs |-> Garbage] /\ ms = [o \in Objs |-> Garbage]
         /\ ks = [o \in Objs |-> NoKdf] /\ D = {} /\ kc = NoKc
@@ -268,7 +282,7 @@ Next == /\ l <= Len(Tr)
         /\ l' = l + 1
         /\ \/ TReset \/ TGarbage \/ THash \/ THInit \/ THUpdate \/ THFinal \/ THFree
            \/ THmac \/ THmInit \/ THmUpdate \/ THmFinal \/ THmFree
-           \/ TForeign \/ TPbLink \/ TPbXor \/ THkdf \/ THkdfHead \/ TPbHead \/ THkdfBlock \/ THkExtract \/ THkExpand \/ THkExpandCtl \/ THkFree \/ TPbkdf2 \/ TPbBlock
+           \/ TForeign \/ THashHuge \/ TPbLink \/ TPbXor \/ THkdf \/ THkdfHead \/ TPbHead \/ THkdfBlock \/ THkExtract \/ THkExpand \/ THkExpandCtl \/ THkFree \/ TPbkdf2 \/ TPbBlock
 
 Spec == Init /\ [][Next]_vars
 TraceAccepted == Accepted(Len(Tr))
